@@ -7,7 +7,8 @@
    correspondence, not proved; score round trip and recalculated-y layout are validated. *)
 From Coq Require Import ZArith Floats.
 From mathcomp Require Import all_ssreflect all_algebra.
-From LS Require Import NumOps RcfOps F64Ops Kernels Preprocess Pca Pls KernelsSpec PlsSpec Gen_Params.
+From LS Require Import NumOps RcfOps F64Ops Kernels Preprocess Pca Pls KernelsSpec PlsSpec PlsRefine Gen_Params.
+From LS Require NipalsSpec.
 Set Implicit Arguments. Unset Strict Implicit. Unset Printing Implicit Defensive.
 Import Order.TTheory GRing.Theory Num.Theory.
 Local Open Scope ring_scope.
@@ -63,6 +64,34 @@ by rewrite nth_zip_cond size_zip leq_min ir im /= nth_mkseq.
 Qed.
 End Model.
 
+(* the EXECUTABLE LVCalc meets the hypotheses of the sequence theorems above: whatever the inner loop
+   returns comes from one pass; the weight vector of a pass is a unit vector of the row space of the
+   current X residual and the score is t = X w; the deflation the code performs (normalised loading,
+   rescaled score) is X - t p' with p = X't / t't *)
+Section Refinement.
+Variable R : rcfType.
+Local Existing Instance RcfOps.
+Theorem C03_loop_returns_a_pass fuel loop (X Y : seq (seq R)) (u told : seq R) w t q u' it : size u = size X ->
+  lv_loop fuel loop X Y u told = Ok (w, t, q, u', it) ->
+  exists2 u0, size u0 = size X & lv_pass X Y u0 = (w, t, q, u').
+Proof. exact: lv_loop_from_pass. Qed.
+Theorem C03_pass_weight_unit_rowspace n m (X Y : seq (seq R)) (u : seq R) :
+  wf n m X -> (0 < n)%N -> size u = n -> cleanm X -> cleanv u ->
+  let p2 := map (fun x => x / vdot u u) (vecmat_into X u (zeros m)) in
+  let: (w, t, q, u') := lv_pass X Y u in
+  cleanv p2 -> cleanv w -> NipalsSpec.dot (cv_of m p2) (cv_of m p2) != 0 ->
+  [/\ (cv_of m w)^T *m cv_of m w = 1%:M, exists c, cv_of m w = (mx_of n m X)^T *m c
+    & cv_of n t = mx_of n m X *m cv_of m w].
+Proof. exact: lv_pass_unit_rowspace. Qed.
+Theorem C03_code_deflation n m (X : seq (seq R)) (t : seq R) : wf n m X -> size t = n -> cleanm X -> cleanv t ->
+  let p1 := vdivs (vecmat_into X t (zeros m)) (vdot t t) in
+  cleanv p1 -> vmodule p1 != 0 ->
+  [/\ cv_of m p1 = (NipalsSpec.dot (cv_of n t) (cv_of n t))^-1 *: ((mx_of n m X)^T *m cv_of n t),
+      cv_of m (vnormalize p1) = (vmodule p1)^-1 *: cv_of m p1 &
+      mx_of n m (deflate X (vmuls t (vmodule p1)) (vnormalize p1)) = mx_of n m X - cv_of n t *m (cv_of m p1)^T].
+Proof. exact: lv_deflation. Qed.
+End Refinement.
+
 Theorem C03_threshold_is_the_sources : QArith_base.Qeq_bool (lq lit_PLSCONV) c_PLSCONVERGENCE = true.
 Proof. by vm_compute. Qed.
 
@@ -72,3 +101,6 @@ Print Assumptions C03_x_decomposition.
 Print Assumptions C03_pw_upper.
 Print Assumptions C03_y_deflation_is_projection.
 Print Assumptions C03_residual_columns.
+Print Assumptions C03_loop_returns_a_pass.
+Print Assumptions C03_pass_weight_unit_rowspace.
+Print Assumptions C03_code_deflation.
